@@ -249,3 +249,40 @@ def _recursive_types(ctx):
     ctx.ob("C14.R8", site, "the description is taken off the worklist exactly once, after the cache test", len(pops) == 1 and pops[0].lineno > first.lineno, construct="worklist-once")
     rets = [r for r in gt.body if isinstance(r, _a.Return)]
     ctx.ob("C14.R8", site, "the type returned is the cached one", bool(rets) and _n(rets[-1].value) == "self.types[idx]", construct="returns-cached")
+    _type_order(ctx)
+
+
+def _type_order(ctx):
+    import ast as _a
+    from ..core import norm as _n, walk_no_nested as _w, last_name as _l
+    D = "ppci/binutils/debuginfo.py"
+    ds = ctx.fn(D, "DictDeserializer.deserialize")
+    site = D + ":DictDeserializer.deserialize"
+    adds = [c for c in _a.walk(ds) if isinstance(c, _a.Call) and _n(c.func) == "debug_info.add" and c.args]
+    tl = []
+    for c in adds:
+        loops = [a for a in _anc14(c) if isinstance(a, _a.For)]
+        if loops and _n(loops[0].iter) in ("x['types']",):
+            tl.append((c, loops[0]))
+    ok = False
+    if len(tl) == 1:
+        c, l = tl[0]
+        arg = c.args[0]
+        src = [n.value for n in l.body if isinstance(n, _a.Assign) and _n(n.targets[0]) == _n(arg)]
+        src = src[0] if src else arg
+        ok = isinstance(src, _a.Call) and _n(src.func) == "self.get_type" and "['id']" in _n(src.args[0]) and _n(l.target) in _n(src.args[0])
+    other = [c for c in adds if any(isinstance(a, _a.For) and ("self.types" in _n(a.iter)) for a in _anc14(c))]
+    ctx.ob("C14.R8", site, "types are added to the DebugInfo in the order of the serialized list (one add per list entry, resolved by its id), not in the order in which the cache happened to be filled: a re-save must assign the same ids",
+           ok and not other, construct="types-in-list-order", node=(other[0] if other else None))
+    wl = [n for n in _a.walk(ds) if isinstance(n, _a.Assign) and _n(n.targets[0]).startswith("self.type_worklist[")]
+    ok = len(wl) == 1 and any(isinstance(a, _a.For) and _n(a.iter) == "x['types']" for a in _anc14(wl[0])) and wl[0].lineno < (tl[0][0].lineno if tl else 0)
+    ctx.ob("C14.R8", site, "all type records are put on the worklist (by id) before the first one is resolved (forward references inside the list)", ok, construct="worklist-first")
+
+
+def _anc14(n):
+    out = []
+    n = getattr(n, "_parent", None)
+    while n is not None:
+        out.append(n)
+        n = getattr(n, "_parent", None)
+    return out
